@@ -101,7 +101,7 @@ func untyped(tree any) any {
 func Run(run *ev.Run) {
 	run.Rule("case kinds: constructor (type), decode (type, base value, per-defaulted-field mode in {omitted, zero-like/empty, random}, reader in {json, ror2, untyped}; all 2^n omit-subsets for n<=8 defaulted fields), aliasing (type, source of the two instances). " +
 		"Expected values come from decoding the manifest's default literal with the reference decoder. distinct = distinct (type, mode vector, reader); non-trivial = at least one defaulted field omitted or supplied with a zero-like value")
-	run.Assume("the reference reading of a default literal (bytes/fixed: one code point per byte)", "v2 generation only")
+	run.Assume("the reference reading of a default literal (bytes/fixed: one code point per byte)", "both generations: the root module through types-only bindings written by its own generator from the same schema sets")
 	rng := rand.New(rand.NewSource(run.Seed + 13))
 	reps := run.Pick(12, 120)
 	for _, set := range all.Sets {
